@@ -187,8 +187,8 @@ func (ex *Exec) bigExp(x, y BigVal, mv Value) BigVal {
 			}
 			return BigVal{I: smt.IntC(new(big.Int).Exp(xv, yv, mvv))}
 		}
-		if xc && xv.Sign() == 0 && x.G == nil {
-			// 0^y mod m = 0 for y>0, 1 for y == 0
+		if (xc && xv.Sign() == 0 && x.G == nil) || (x.I == m.I && x.G == nil) {
+			// 0^y mod m = 0 for y>0, 1 for y == 0  (also for the base m itself, which is 0 mod m)
 			return BigVal{I: smt.Ite(smt.Eq(y.I, smt.I64(0)), smt.I64(1), smt.I64(0))}
 		}
 		if ex.modKind(m.I) == "" && x.G == nil && yc && yv.IsInt64() && yv.Int64() >= -8 && yv.Int64() <= 8 &&
